@@ -28,7 +28,7 @@ W.install_clock()
 PROPERTY = "C18"
 CASE = {}
 KERNELS = ["gunicorn.workers.base:Worker.__init__", "gunicorn.workers.sync:SyncWorker.handle_request",
-           "gunicorn.workers.sync:SyncWorker.run_for_one", "gunicorn.workers.gthread:ThreadWorker.handle_request",
+           "gunicorn.workers.sync:SyncWorker.run_for_one", "gunicorn.workers.sync:SyncWorker.run_for_multiple", "gunicorn.workers.gthread:ThreadWorker.handle_request",
            "gunicorn.workers.gthread:ThreadWorker.handle", "gunicorn.workers.gthread:ThreadWorker.finish_request",
            "gunicorn.workers.base_async:AsyncWorker.handle_request", "gunicorn.workers.base_async:AsyncWorker.handle"]
 STUBS = ["sockets -> RecSock", "WorkerTmp -> no-op record", "random.randint inside gunicorn.workers.base -> solver value in range",
@@ -218,8 +218,12 @@ def gthread_recycle(nconn: int, lim: int, early: bool) -> bool:
             if not pending:
                 raise OSError(errno.EAGAIN, "again")
             return pending.pop(0), ("10.0.0.9", 1000)
-    lst = Listener()
+    lst = Listener(name="/run/g.sock")       # unix bind shared with the sibling workers and the master
     w.sockets = [lst]
+    import gunicorn.sock as GS
+    unlinked = []
+    saved_gs = GS.os
+    GS.os = ns("GS.os", unlink=lambda p: unlinked.append(p))
 
     class Poller(W.Poller):
         def select(self_, timeout):
@@ -258,8 +262,9 @@ def gthread_recycle(nconn: int, lim: int, early: bool) -> bool:
         w.run()
     finally:
         G.futures, G.os = saved
-    if w.alive:
-        return False
+        GS.os = saved_gs
+    if w.alive or unlinked or lst.closed != 1:
+        return False                        # the recycled worker closes its copy of the listener and leaves the socket file alone
     # every connection that had been handed to a handler before the worker left got its complete response
     for f in pool.pending:
         if f.state != "done":
@@ -277,6 +282,64 @@ def gthread_recycle(nconn: int, lim: int, early: bool) -> bool:
             return False
         answered += 1
     return answered == pool.jobs and answered >= min(lim, nconn)
+
+
+def sync_loop_multi(lim: int, k1: int, k2: int) -> bool:
+    """
+    pre: 1 <= lim <= CASE["lim"] and 0 <= k1 <= CASE["k"] and 0 <= k2 <= CASE["k"]
+    post: __return__
+    """
+    # two listeners (two bind addresses), both readable in the same select round
+    lim, k1, k2 = pick(lim, 1, CASE["lim"]), pick(k1, 0, CASE["k"]), pick(k2, 0, CASE["k"])
+    calls = []
+    cfg = W.make_cfg()
+    w = W.sync_worker(cfg, _app(calls), max_requests=lim)
+
+    class Listener(RecSock):
+        def __init__(self_, n):
+            super().__init__()
+            self_.pend = [RecSock([REQ]) for _ in range(n)]
+            self_.taken = []
+
+        def accept(self_):
+            if not self_.pend:
+                raise OSError(errno.EAGAIN, "again")
+            c = self_.pend.pop(0)
+            self_.taken.append(c)
+            return c, ("10.0.0.9", 1000)
+    l1, l2 = Listener(k1), Listener(k2)
+    w.sockets = [l1, l2]
+    w.PIPE = [90, 91]
+    w.wait_fds = [l1, l2, 90]
+    w.tmp = SimpleNamespace(notify=lambda: None)
+    w.timeout = 1.0
+    rounds = [0]
+
+    def select(r, w_, x, timeout):
+        rounds[0] += 1
+        if rounds[0] > k1 + k2 + 2:
+            w.alive = False                 # nothing more will come
+            return ([], [], [])
+        return ([l for l in (l1, l2) if l.pend], [], [])
+    saved = S.select, S.os, S.util
+    S.select = ns("S.select", select=select)
+    S.os = ns("S.os", getppid=lambda: 1, read=lambda fd, n: b"")
+    S.util = ns("S.util", close_on_exec=lambda fd: None, close=saved[2].close, reraise=saved[2].reraise)
+    try:
+        w.run_for_multiple(w.timeout)
+    finally:
+        S.select, S.os, S.util = saved
+    n = min(k1 + k2, lim)
+    if len(calls) != n or len(l1.taken) + len(l2.taken) != n:
+        return False                        # never more than the limit, whichever listeners were ready
+    for c in l1.taken + l2.taken:
+        try:
+            rs = hr.parse_stream(c.wire(), [False])
+        except hr.Bad:
+            return False
+        if not _one(rs) or c.closed != 1:
+            return False
+    return not w.alive
 
 
 def count_twin(lim: int, k: int) -> bool:
@@ -301,6 +364,8 @@ OBLIGATIONS = [
        cases={"quick": [{"kind": k, "lim": 3, "k": 4} for k in ("gthread", "async")],
               "thorough": [{"kind": k, "lim": 4, "k": 6} for k in ("gthread", "async")]},
        timeout={"quick": 900, "thorough": 3000}, bound="limit 1..3 (4), 1..4 (6) pipelined requests on one keep-alive connection"),
+    Ob("C18.sync_loop_multi", "sync_loop_multi", cases={"quick": [{"lim": 3, "k": 2}], "thorough": [{"lim": 4, "k": 3}]}, timeout=900,
+       bound="run_for_multiple with two listeners offering 0..2 (3) connections each, both ready in the same select round, limit 1..3 (4)"),
     Ob("C18.gthread_recycle", "gthread_recycle", cases={"quick": [{"nconn": 3}], "thorough": [{"nconn": 5}]}, timeout=900,
        bound="real ThreadWorker.run with a deferred executor: 1..3 (thorough 5) connections handed to the pool, limit reached "
              "while others are still queued: all of them are answered before the worker leaves"),
